@@ -25,7 +25,11 @@ META = {
                   "(the code caches a start time on first sight); the ordering claim is only checked when every message's "
                   "lifecycle is in the table, reception times never decrease and rx - calc <= D for every message "
                   "(evaluated by TLC from the logged fields); outside of that only the permutation part is checked. "
-                  "window size 0 is outside the statement (>= 1 s).",
+                  "window size 0 is outside the statement (>= 1 s). Burst cases (up to 1.2 * 2^20 messages inside the "
+                  "buffering window, more than the sorter preallocates) are judged by TLC on a driver-computed summary (count, "
+                  "multiset hash in/out, altered messages, first (calc, index) inversion of the output) instead of 10^6 out "
+                  "events; the bound is evaluated by TLC from the linear input families; small bursts are additionally "
+                  "recorded as full traces (twins) so that the summary scan is tied to TLC's own judgement.",
 }
 
 EMIT_QUICK = [("emit", "Sorter_emit.cfg"), ("emit-w1", "Sorter_emit_w1.cfg"), ("emit-dup", "Sorter_emit_dup.cfg")]
@@ -43,7 +47,8 @@ def drive(binp, args, out):
 def case_stats(cases, bound_of, ordered_of):
     """coverage counters from the recorded traces (information only, never a verdict)"""
     st = {"cases_bound_ok": 0, "cases_outside_bound": 0, "bound_ok_and_reordered": 0, "ctrl_requests": 0,
-          "missing_lifecycle_msgs": 0, "cases_with_equal_calc_and_index": 0, "cases_index_not_increasing": 0, "by_kind": {}, "max_len": 0, "windows": {}, "delays_D": {}}
+          "missing_lifecycle_msgs": 0, "cases_with_equal_calc_and_index": 0, "cases_index_not_increasing": 0, "burst_cases_over_2pow20_bound_ok": 0, "burst_max_messages": 0,
+          "burst_twins_reordered": 0, "by_kind": {}, "max_len": 0, "windows": {}, "delays_D": {}}
     for k, evs in cases.items():
         h = evs[0]["hdr"]
         st["by_kind"][h["kind"]] = st["by_kind"].get(h["kind"], 0) + 1
@@ -56,6 +61,11 @@ def case_stats(cases, bound_of, ordered_of):
         st["missing_lifecycle_msgs"] += sum(1 for m in h["msgs"] if m["lc"] not in ids)
         order = [e["uid"] for e in evs[1:] if e["ev"] == "out"]
         b = bound_of.get(k)
+        if h["kind"] == "burst":
+            st["burst_max_messages"] = max(st["burst_max_messages"], h["n"])
+            st["burst_cases_over_2pow20_bound_ok"] += 1 if (h["n"] > 2 ** 20 and b) else 0
+        if h["kind"] == "burst-twin" and b and order != sorted(order):
+            st["burst_twins_reordered"] += 1
         # (coverage only) does the input contain two messages with equal calculated time AND equal index field?
         start = {t["id"]: t["start"] for t in h["table"]}
         keys = [((m["rx"] if m["ctrl"] else min(start[m["lc"]] + m["ts"], m["rx"])), m["index"]) for m in h["msgs"] if m["lc"] in start]
@@ -90,6 +100,19 @@ def binding_selftest(ctx, cases, bound_of, ordered_of, accepted):
         for name, vv in variants.items():
             hdr = dict(vv[0], case=n)
             out.append(hdr)
+            out.extend(vv[1:])
+            (expect_ok if name == "control" else expect_rej).add(n)
+            n += 1
+    for k in [k for k in sorted(cases) if k in accepted and cases[k][0]["hdr"]["kind"] == "burst" and bound_of.get(k)][-1:]:
+        evs = cases[k]
+        bi = [i for i, e in enumerate(evs) if e["ev"] == "burst_out"][0]
+        variants = {"control": list(evs)}
+        for name, ch in (("inversion", {"first_inv": 17}), ("lost", {"count": evs[bi]["count"] - 1}),
+                         ("other-multiset", {"hash": (evs[bi]["hash"] + 1) % 2147483647}), ("altered", {"not_intact": 1})):
+            v = list(evs); v[bi] = dict(evs[bi], **ch); variants[name] = v
+        v = list(evs); del v[bi]; variants["no-summary"] = v
+        for name, vv in variants.items():
+            out.append(dict(vv[0], case=n))
             out.extend(vv[1:])
             (expect_ok if name == "control" else expect_rej).add(n)
             n += 1
@@ -139,7 +162,7 @@ def check(ctx):
     # (c,d) replay on the real code (prediction fast path) + random streams (always traced)
     nrand, ndet, maxlen = (1500, 300, 120) if quick else (8000, 2000, 400)
     ndup = 600 if quick else 3000
-    info = drive(binp, ["--scenarios", scn, "--sample-every", str(max(1, nscn // (400 if quick else 2000))), "--random", str(nrand), "--det", str(ndet), "--dup", str(ndup),
+    info = drive(binp, ["--scenarios", scn, "--sample-every", str(max(1, nscn // (400 if quick else 2000))), "--random", str(nrand), "--det", str(ndet), "--dup", str(ndup), "--burst", "4",
                         "--seed", str(ctx.seed), "--max-len", str(maxlen)], trace)
     # (e) TLC validates every recorded run against the contract
     v = c.validate_trace(ctx, "sorter", "SorterTrace.tla", trace, timeout=3000)
@@ -151,7 +174,7 @@ def check(ctx):
     v.res.out = ""
     ctx.add_tlc("trace-validation", v.res)
     cases = c.split_cases(trace)
-    ctx.evaluations = info["replayed"] + info["random"] + info["det"] + info["dup"]
+    ctx.evaluations = info["replayed"] + info["random"] + info["det"] + info["dup"] + 2 * 4 + len(info["burst_sizes"])
     ctx.traces_validated = info["cases"] - len(v.violations)
     ctx.rule = ("a case = one call of buffer_sort_messages on one (stream, lifecycle table, window, D); TLC scenarios: every "
                 "complete behaviour of the bounded Sorter models, executed on the real code, judged by the model-checked "
@@ -181,7 +204,8 @@ def check(ctx):
         ctx.add_sample(smp)
     if not v.violations:      # vacuity / self-test failures are tool errors; they never mask a verdict
         if (st["bound_ok_and_reordered"] == 0 or st["cases_outside_bound"] == 0 or st["ctrl_requests"] == 0
-                or st["cases_with_equal_calc_and_index"] == 0):
+                or st["cases_with_equal_calc_and_index"] == 0 or st["burst_cases_over_2pow20_bound_ok"] == 0
+                or st["burst_twins_reordered"] == 0):
             raise c.ToolError("vacuous traces: %s" % st)
         binding_selftest(ctx, cases, bound_of, ordered_of, set(cases))
     rej = {r[0]: r for r in v.rejected}
